@@ -114,7 +114,7 @@ include ht hs
 omit ht hs in
 /-- a row-level call on a consumed frame: `None`, nothing changes -/
 theorem closed_row {r : R} {k : Nat} (hI : Inv t r) (hc : Closed cfg t fresh ref r k) :
-    ∃ r1, nextInterlacedRow cfg t r = (r1, .noRow) ∧ Sim False r r1 := by
+    ∃ r1, nextInterlacedRow cfg t r = (r1, .noRow) ∧ PSim False r r1 := by
   obtain ⟨i, hi, _⟩ := hI.info
   obtain ⟨c1, c2, _⟩ := hc
   have h1 : nextInterlacedRow cfg t r =
@@ -260,7 +260,7 @@ theorem info_J {r : R} {a : Asm} (hJ : J cfg t fresh ref r a) :
   | true =>
     rw [hcl] at hst; simp only [if_true] at hst
     by_cases hrem : r.remaining = 0
-    · rw [nextFrameInfo_end cfg t r (by rw [hst.1]; simp only [if_true]; exact hrem), hparam]
+    · rw [nextFrameInfo_pend cfg t r (by rw [hst.1]; simp only [if_true]; exact hrem), hparam]
       exact ⟨hI, hz, hnp, hfr, by rw [hcl]; simp only [if_true]; exact hst⟩
     · obtain ⟨s, fc, hx, hIs, hO⟩ := closed_info ht hI hst hrem
       rw [hx] at hz' ⊢
@@ -272,7 +272,7 @@ theorem info_J {r : R} {a : Asm} (hJ : J cfg t fresh ref r a) :
     obtain ⟨lI, l2, l3, l4⟩ := frameInto_leaves cfg ht hI o1 hW
     obtain ⟨k1, k2⟩ := skip_agrees cfg ht hI hi o1 hW
     by_cases hrem : rE.remaining = 0
-    · rw [nextFrameInfo_end cfg t r (by rw [o1]; simp only [Bool.false_eq_true, if_false]; omega), hparam]
+    · rw [nextFrameInfo_pend cfg t r (by rw [o1]; simp only [Bool.false_eq_true, if_false]; omega), hparam]
       exact ⟨hI, hz, hnp, hfr, by rw [hcl]; simp only [Bool.false_eq_true, if_false]; exact ⟨o1, o2, rE, oi, B, hW, hB, hC⟩⟩
     · obtain ⟨s, fc, hx, hIs, hO⟩ := closed_info ht lI hC hrem
       rw [hx] at k1 k2
